@@ -23,6 +23,7 @@ const (
 	Count
 	FailOp           // k-th failable operation (Put/Delete/scan/bucket open) returns ErrInjected
 	FailCommit       // callback runs, then the transaction is failed so that bbolt rolls back
+	FailClass        // k-th failable operation of one class (bucket|kind|key class) returns ErrInjected
 	KillOp           // SIGKILL at the k-th operation (any kind)
 	KillBeforeCommit // SIGKILL after the callback, before bbolt commits
 	KillAfterCommit  // SIGKILL right after the storage commit returned
@@ -45,6 +46,9 @@ type Proxy struct {
 	failable atomic.Int64 // operations that can return an error
 	Fired    atomic.Bool
 	FiredOp  OpInfo
+	// failable operations per class (bucket|kind|key class) since Arm
+	classCounts map[string]int64
+	targetCls   string
 	// hooks for forced interleavings (may be nil)
 	BeforeRead   func()
 	AfterReadTx  func()
@@ -60,10 +64,31 @@ func Wrap(inner diskstore.DiskStore) *Proxy { return &Proxy{inner: inner} }
 func (p *Proxy) Arm(mode Mode, k int64) {
 	p.mu.Lock()
 	p.mode, p.k = mode, k
+	p.classCounts = map[string]int64{}
+	p.targetCls = ""
 	p.mu.Unlock()
 	p.ops.Store(0)
 	p.failable.Store(0)
 	p.Fired.Store(false)
+}
+
+// ArmClass makes the k-th failable operation of class cls fail in the next write transactions.
+func (p *Proxy) ArmClass(cls string, k int64) {
+	p.Arm(FailClass, k)
+	p.mu.Lock()
+	p.targetCls = cls
+	p.mu.Unlock()
+}
+
+// ClassCounts returns the failable operations per class seen since Arm.
+func (p *Proxy) ClassCounts() map[string]int64 {
+	p.mu.Lock()
+	defer p.mu.Unlock()
+	out := make(map[string]int64, len(p.classCounts))
+	for k, v := range p.classCounts {
+		out[k] = v
+	}
+	return out
 }
 
 func (p *Proxy) Disarm() { p.Arm(Off, 0) }
@@ -160,11 +185,29 @@ func keyClass(k []byte) string {
 func (p *Proxy) step(bucket, kind string, key []byte, failable bool) error {
 	mode, k := p.current()
 	n := p.ops.Add(1)
-	var fn int64
+	var fn, cn int64
+	target := ""
+	cls := ""
 	if failable {
 		fn = p.failable.Add(1)
+		if mode != Off {
+			cls = bucket + "|" + kind + "|" + keyClass(key)
+			p.mu.Lock()
+			if p.classCounts != nil {
+				p.classCounts[cls]++
+				cn = p.classCounts[cls]
+			}
+			target = p.targetCls
+			p.mu.Unlock()
+		}
 	}
 	switch mode {
+	case FailClass:
+		if failable && cls == target && cn == k {
+			p.Fired.Store(true)
+			p.FiredOp = OpInfo{Bucket: bucket, Kind: kind, KeyCls: keyClass(key), N: fn}
+			return fmt.Errorf("%s %s: %w", kind, bucket, ErrInjected)
+		}
 	case KillOp:
 		if n == k {
 			syscall.Kill(syscall.Getpid(), syscall.SIGKILL)
